@@ -127,7 +127,7 @@ CATALOGUE = [
 
 class C19:
     id = "C19"
-    cases = {"quick": 250, "thorough": 10000}
+    cases = {"quick": 150, "thorough": 10000}
     rule = ("rejected inputs: accepted base programs (CoreGen, repository samples) with one fault injected on a known line L "
             "(illegal character, stray token at the end of L, wrongly typed literal initialiser, undefined name, assignment to a "
             "fin variable, wrong arguments, ill-typed operand) inside top-level and nested blocks, alone or as one file of a "
